@@ -166,6 +166,41 @@ func targeted(r *rand.Rand) one {
 	return c
 }
 
+// chains: reference chains and cycles through named types whose root is itself a node with a types list (typed
+// literals `EX // {type: "@t"}`, `or` lists with repeated names, aliases `@al = @i`, or-shortcuts inside named types) —
+// the reference-following loops of the checker (collectAllowedJsonTypes, buildList) as (A) and (C) model them; the
+// repeated names make the loops long: (A) must never answer "out of fuel" (C04_text_checker_never_out_of_fuel).
+func chains(r *rand.Rand) one {
+	pick := func(xs ...string) string { return xs[r.Intn(len(xs))] }
+	c := one{stream: "chains"}
+	k := r.Intn(14)
+	if r.Intn(4) == 0 {
+		k = 20 + r.Intn(40) // long lists of one repeated name: the loops read every occurrence
+	}
+	or := strings.Repeat(`"@x", `, k) + pick(`"@a"`, `"@a"`, `"@i"`, `"@s"`, `"@zz"`)
+	c.names = []string{"@s", "@i", "@x", "@T", "@a", "@al", "@o", "@w"}
+	c.texts = []string{`"abc" // {minLength: 1}`, "7 // {min: 3}", "3",
+		"1 // {or: [" + or + "]}",
+		"2 // {type: " + pick(`"@T"`, `"@T"`, `"@i"`, `"@al"`, `"@a"`) + "}",
+		pick("@i", "@s | @i", "@a", "@al", "@T", "@zz"),
+		pick("@s | @i", "@s | @zz", "@T | @s", "@al | @i"),
+		"{\n  \"p\": " + pick("@s | @i", "@s | @zz", "@o", "@al") + ",\n  \"q\": [\n    " + pick("@i | @x", "@zz | @x", "4 // {type: \"@a\"}") + "\n  ]\n}"}
+	ex := pick("5", "1", `"q"`, "2.5", "true")
+	switch r.Intn(5) {
+	case 0:
+		c.root = ex + " // {type: " + pick(`"@T"`, `"@a"`, `"@al"`, `"@o"`, `"@i"`, `"@w"`) + "}"
+	case 1:
+		c.root = ex + " // {or: [" + strings.Repeat(`"@al", `, r.Intn(4)) + pick(`"@T"`, `"@s"`, `"@a"`) + ", " + pick(`"@i"`, `"@s"`, `"@zz"`, `"@o"`) + "]}"
+	case 2:
+		c.root = "{\n  \"p\": " + ex + ", // {type: " + pick(`"@T"`, `"@a"`, `"@al"`) + "}\n  \"q\": " + pick("@o", "@al", "@s | @al", "@w") + "\n}"
+	case 3:
+		c.root = "[\n  " + pick("@T", "@a | @s", "@al | @o", "@zz | @s") + ",\n  " + ex + " // {type: " + pick(`"@a"`, `"@i"`) + "}\n]"
+	default:
+		c.root = pick("@T", "@a", "@al", "@o", "@al | @o", "@w")
+	}
+	return c
+}
+
 // gen: case number i.
 func gen(i int) []one {
 	r := vh.NewRand(int64(i)*1000033 + 777)
@@ -202,7 +237,11 @@ func gen(i int) []one {
 		root, names, texts := c04model.BridgeWild(i / 8)
 		out = append(out, one{root: root, names: names, texts: texts, stream: "c04-wild"})
 	default:
-		out = append(out, targeted(r))
+		if r.Intn(3) == 0 {
+			out = append(out, chains(r))
+		} else {
+			out = append(out, targeted(r))
+		}
 	}
 	return out
 }
@@ -231,7 +270,7 @@ func verdictWord(p string) (string, string) {
 }
 
 func Run(args []string) {
-	rep := vh.NewReport(command, "Lean-vs-Lean: the schema texts of the generators of e2e-text (random type tables: root + 4 named types + 4 key types, half of them with noise rules; 1 in 6 also byte-mutated), c08-model (one annotated node in a context: random / duplicate / or-member / malformed-value / shortcut streams), c04-model (streams 1, 2 with chains of corruptions; wild) and a targeted stream (objects with several key shortcuts, every additionalProperties type name, rule values at the edge of the constructors, reference nodes with rules) go to the driver word `bridge`: scanner model -> loader model -> (A) Compile, (B) CR.checkRules per node through crNodeOf, (C) CK.checkSchema through dumpOf; DISAGREE in any of the three comparisons (B: per node code; W: per-node reading of (A) against (A); C: checker code) is a diff; the real Check() of the same texts is shown next to it; nontrivial = some annotated node compared or the checker stage reached")
+	rep := vh.NewReport(command, "Lean-vs-Lean: the schema texts of the generators of e2e-text (random type tables: root + 4 named types + 4 key types, half of them with noise rules; 1 in 6 also byte-mutated), c08-model (one annotated node in a context: random / duplicate / or-member / malformed-value / shortcut streams), c04-model (streams 1, 2 with chains of corruptions; wild) and a targeted stream (objects with several key shortcuts, every additionalProperties type name, rule values at the edge of the constructors, reference nodes with rules; chains: typed literals, or lists with repeated names, aliases and or-shortcuts through named types, cycles included) go to the driver word `bridge`: scanner model -> loader model -> (A) Compile, (B) CR.checkRules per node through crNodeOf, (C) CK.checkSchema through dumpOf; DISAGREE in any of the three comparisons (B: per node code; W: per-node reading of (A) against (A); C: checker code) is a diff, and so is an (A) that answers out-of-fuel; the real Check() of the same texts is shown next to it; nontrivial = some annotated node compared or the checker stage reached")
 	n := vh.Pick(24000, 400000)
 	const batch = 4000
 	total, outside := 0, 0
@@ -284,6 +323,12 @@ func Run(args []string) {
 				continue
 			}
 			rep.Case(reqs[i], bw == "AGREE" || cw == "AGREE")
+			if strings.HasPrefix(a, "UNSUP fuel") {
+				// C04_text_checker_never_out_of_fuel: Compile.checkFuel is enough on every tree and every type table
+				rep.Stat("diff_A_fuel")
+				rep.AddDiff(vh.Diff{Component: command + ":A-fuel", Input: input(x.c), Impl: "real Check() = " + x.real,
+					Model: reply, Note: reqs[i], Level: "correspondence"})
+			}
 			rep.Stat("A_" + strings.Join(strings.Fields(a+" -")[:1], ""))
 			rep.Stat("B_" + bw)
 			rep.Stat("W_" + ww)
@@ -308,6 +353,13 @@ func Run(args []string) {
 					rep.Stat("A_equals_real_Check")
 				} else {
 					rep.Stat("A_differs_from_real_Check")
+					if x.c.stream == "chains" {
+						// the class of C04_models_agree_compiled against the code: on the chains stream (A) = (C) is a theorem,
+						// so a real Check() that differs from (A) contradicts both models
+						rep.Stat("diff_chains_real")
+						rep.AddDiff(vh.Diff{Component: command + ":chains-real", Input: input(x.c), Impl: "real Check() = " + x.real,
+							Model: reply, Note: reqs[i]})
+					}
 				}
 			}
 			for _, d := range []struct{ tag, w, detail string }{{"B", bw, bd}, {"W", ww, wd}, {"C", cw, cd}} {
